@@ -16,7 +16,7 @@ func init() {
 		"non-trivial = differs from base; distinct = (source hash, document)"
 }
 
-var c09Devs = []string{"INLINE_STRUCT_NO_DEFAULTS", "DEFAULT_ENUM_NULL_REJECTED", "DEFAULT_MAP_EMPTIED", "SIZED_INT_ENUM_REJECTS_ALL"}
+var c09Devs = []string{"NULL_OBJECT_VALIDATES_ZERO", "ANYOF_MERGED_NO_DEFAULTS", "INLINE_STRUCT_NO_DEFAULTS", "DEFAULT_ENUM_NULL_REJECTED", "DEFAULT_MAP_EMPTIED", "SIZED_INT_ENUM_REJECTS_ALL"}
 
 // buildRule attributes a known compile failure: message pattern plus a predicate over the case axes.
 type buildRule struct {
@@ -121,6 +121,9 @@ func c09Leaves(level int) []c09Leaf {
 			c09Leaf{"string-time", "string", "time", J{"type": "string", "format": "time"}, "12:34:56", true},
 			c09Leaf{"object-nested", "object", "", J{"type": "object", "properties": J{"o": J{"type": "object", "properties": J{"k": J{"type": "string"}}, "required": A{"k"}}}, "required": A{"o"}}, J{"o": J{"k": "v"}}, true},
 			c09Leaf{"any", "any", "", J{}, "x", false},
+			// an object default whose members carry constraints (the default satisfies them), and one whose keys are not plain lower-case words
+			c09Leaf{"object-constrained-members", "object", "", J{"type": "object", "properties": J{"k": J{"type": "string", "minLength": 2}, "n": J{"type": "integer", "minimum": 1}}, "required": A{"k", "n"}}, J{"k": "vv", "n": 3}, false},
+			c09Leaf{"object-key-spellings", "object", "", J{"type": "object", "properties": J{"my_key": J{"type": "string"}, "id": J{"type": "integer"}}, "required": A{"my_key", "id"}}, J{"my_key": "v", "id": 3}, true},
 		)
 	}
 	return ls
@@ -160,6 +163,10 @@ func c09Cases(level int) []SCase {
 						Schema: J{"type": "object", "properties": J{"c": J{"allOf": A{J{"type": "object", "properties": J{"p": s}}, J{"type": "object", "properties": J{"q": sib}}}}}, "required": A{"c"}}})
 					cases = append(cases, SCase{ID: "C09/def/" + name, Cfg: cfg, Axes: ax("def"),
 						Schema: J{"type": "object", "properties": J{"d": J{"$ref": "#/$defs/D"}}, "required": A{"d"}, "$defs": J{"D": J{"type": "object", "properties": J{"p": s}}}}})
+					if !sized && l.kind != "enum" && l.kind != "enum-wrapped" && l.name != "object-constrained-members" { // (enum carriers in the merged struct: KF-C11-1 / KF-C08-1)
+						cases = append(cases, SCase{ID: "C09/anyof/" + name, Cfg: cfg, Axes: ax("anyof"),
+							Schema: J{"type": "object", "properties": J{"c": J{"anyOf": A{J{"type": "object", "properties": J{"p": s, "t": J{"type": "string"}}, "required": A{"t"}}, J{"type": "object", "properties": J{"q": sib}, "required": A{"q"}}}}}, "required": A{"c"}}})
+					}
 					cases = append(cases, SCase{ID: "C09/item/" + name, Cfg: cfg, Axes: ax("item"),
 						Schema: J{"type": "object", "properties": J{"a": J{"type": "array", "items": J{"type": "object", "properties": J{"p": s}}}}}})
 				}
@@ -192,6 +199,21 @@ func c09(ctx *Ctx) {
 			attributeBuild(ctx, sc, msg, c09BuildRules, map[string]any{"kind": "gen", "files": sc.Case().Files, "cfg": sc.Case().Cfg, "compiler": msg})
 		},
 		DocFilter: func(sc *SCase, d *refmodel.Doc, tv refmodel.Verdict) bool {
+			if sc.Axes["pos"] == "anyof" {
+				// only the documents this property is about: the defaulted property absent, null, or as in the base document (a value
+				// that only the other branch accepts meets the Go field types of the merged struct: KF-C11-1, C11's subject)
+				keep := d.Class == "base"
+				if dv, ok := d.V.(map[string]any); ok {
+					if c, ok := dv["c"].(map[string]any); ok {
+						if pv, present := c["p"]; !present || pv == nil {
+							keep = true
+						}
+					}
+				}
+				if !keep {
+					return false
+				}
+			}
 			return tv == refmodel.Accept
 		}})
 	ctx.Run.Assume("only documents valid in the reference model are decoded (the statement is about decoded values)",
@@ -199,6 +221,21 @@ func c09(ctx *Ctx) {
 }
 
 func init() {
+	// a property declared (with its default) by an anyOf branch: the value is decoded into the struct merged from all branches, which
+	// has no default validators - absent / null leave the Go zero value
+	valueDeviations["ANYOF_MERGED_NO_DEFAULTS"] = func(m *refmodel.Model, sc *SCase, d refmodel.Doc, want, got any, diff string) bool {
+		if sc.Axes["pos"] != "anyof" || !strings.Contains(diff, ".c.p") {
+			return false
+		}
+		if dv, ok := d.V.(map[string]any); ok {
+			if c, ok := dv["c"].(map[string]any); ok {
+				if pv, present := c["p"]; present && pv != nil {
+					return false // the document gives the property: nothing to default
+				}
+			}
+		}
+		return jsonvDiffWithout(want, got, "p") == ""
+	}
 	// typed additionalProperties + default: the stated default map is replaced by an empty map of the value type
 	valueDeviations["DEFAULT_MAP_EMPTIED"] = func(m *refmodel.Model, sc *SCase, d refmodel.Doc, want, got any, diff string) bool {
 		if sc.Axes["kind"] != "map" || !strings.Contains(diff, ".p") {
